@@ -25,6 +25,7 @@ Template directives (each on its own line, starting with //@):
     //@open                         following lines go right after the body's opening brace
     //@close                        following lines go right before the body's closing brace
     //@at /regex/ [nth=K] before|after|replace   following lines go before/after/instead of the matching body line
+    //@optional                     the whole block is skipped (instead of anchor-lost) when the item is not found
     //@skipbody                     keep only the signature (+contract); body becomes unimplemented (external_body)
   //@end
 
@@ -117,7 +118,16 @@ class Unit:
                     j += 1
                 if j >= len(tpl):
                     raise TemplateError('missing //@end for ' + s)
-                self._extract(s, tpl[i + 1:j])
+                block = tpl[i + 1:j]
+                if any(b.strip() == '//@optional' for b in block):
+                    # an item that an edit may remove altogether (e.g. a helper introduced by a fix): when it is
+                    # gone the block is skipped and the callers are judged without it
+                    try:
+                        self._extract(s, [b for b in block if b.strip() != '//@optional'])
+                    except AnchorLost as e:
+                        self.notes = getattr(self, 'notes', []) + ['optional item skipped: %s' % e]
+                else:
+                    self._extract(s, block)
                 cur_label = None
                 i = j
             elif s.startswith('//@'):
